@@ -47,13 +47,14 @@ CLAIMED = {
             "border cells the compact array does not keep excepted (F23), every access in range (CExpW.v); "
             "C04_c_wps_value_is_the_distance_kernels_value: the regenerated warping-paths kernel, called with the struct "
             "the regenerated dtw_wps_parts returns, and the regenerated distance kernel return the same value for the "
-            "same settings; dtw.warping_paths is compared with the as-written model and with the extracted "
+            "same settings; C04_c_wps_kernel_marks_as_written: with psi_neg the kernel overwrites with -1 exactly the cells the "
+            "relaxed end skips (last column below the chosen end row / last row right of the chosen end column); dtw.warping_paths is compared with the as-written model and with the extracted "
             "regenerated fill on every cell, the C full matrix, "
             "compact+expand and slice expansion cell-wise with the specification model applying the property's "
             "two freedoms",
             "a model of the C fill loops as written (regenerated geometry and recurrence text, CFillSim.v) is proved to "
             "store the specification matrix through the layout, and fill and expand address the same slot (CFill.v, "
-            "CExpand.v); the bounded run (pruning by max_dist) and the -1 marks of "
+            "CExpand.v); the bounded run (pruning by max_dist; proved under C03) and the -1 marks under a bound / of the Euclidean twin of "
             "the C kernels are regenerated and compared with the compiled kernels cell by cell (site c.wpsk) but not "
             "proved; float rounding is correspondence only; border-cell finding "
             "F23 recorded",
